@@ -199,7 +199,7 @@ TEXT = {
         "level": "PARTIAL. Lean theorems: the document sent is a function of the synchronized part of the operations only — batches differing only in previous values or "
                  "deleted tasks' contents send the same characters (C14_old_values_never_leave), undo points are dropped and order kept, every other operation is sent; the "
                  "document has exactly the documented shape and fields (C14_document_shape); every string survives print-then-parse whatever characters it holds "
-                 "(C14_string_roundtrip). The whole-document round trip (uuid / RFC 3339 printers against their parsers) is NOT a theorem: it is evaluated by the kernel on an "
+                 "(C14_string_roundtrip), and so does every 128-bit task id (C14_uuid_roundtrip). The whole-document round trip (uuid / RFC 3339 printers against their parsers) is NOT a theorem: it is evaluated by the kernel on an "
                  "example and checked on every run. Tied to the code by running the real encoder and decoder (same serde path as TaskDb::sync) against the model's independent "
                  "printer and reader on generated batches, on documents from a foreign writer, and on malformed documents; and by judging every version real syncs send.",
         "design_ref": "DESIGN.md §5 C14",
